@@ -83,11 +83,35 @@ def check(prog, ctx):
     ctx.rule('C05.d', 'augmentation [M | I], final row scaling by the diagonal, extraction of columns N..2N-1', 3)
     inv = prog.fn(M + 'Inverse')
     # ---- C05.a
-    divs = enclosing(inv.body, lambda n: n.get('k') == 'Bin' and n['op'] == '/' and diag_index(n['rhs']) is not None)
+    # a divisor may be the diagonal element itself or a local that was initialised with it and never reassigned
+    # (the value is then read where the local is declared)
+    loc_def = {}
+    for s_ in walk_stmts(inv.body):
+        if s_['k'] == 'Decl':
+            for d_ in s_['decls']:
+                if d_.get('init') is not None and diag_index(d_['init']) is not None:
+                    loc_def[d_['id']] = (d_, s_)
+    reassigned = set(strip(e_['lhs']).get('id') for e_ in all_exprs(inv) if e_.get('k') == 'Bin' and e_['op'] in ('=', '+=', '-=', '*=', '/=')
+                     and strip(e_['lhs']).get('k') == 'Ref')
+    loc_def = {k_: v_ for k_, v_ in loc_def.items() if k_ not in reassigned}
+
+    def diag_of(e_):
+        d0 = diag_index(e_)
+        if d0 is not None:
+            return d0, None
+        r_ = strip_casts(e_)
+        if r_.get('k') == 'Ref' and r_.get('id') in loc_def:
+            d_, s_ = loc_def[r_['id']]
+            return diag_index(d_['init']), s_
+        return None, None
+    divs = enclosing(inv.body, lambda n: n.get('k') == 'Bin' and n['op'] == '/' and diag_of(n['rhs'])[0] is not None)
     elim = []
     scale = []
+    read_at = {}
     for n, stack in divs:
-        w, v, vid = diag_index(n['rhs'])
+        (w, v, vid), decl_stmt = diag_of(n['rhs'])
+        if decl_stmt is not None:
+            read_at[id(n)] = decl_stmt
         num = elem_index(n['lhs'])
         loops = [s for s in stack if s['k'] == 'For']
         outer = [s for s in loops if loop_var(s) and loop_var(s)['id'] == vid]
@@ -106,6 +130,11 @@ def check(prog, ctx):
         for idx, s in enumerate(body):
             if any(x is n for s2 in walk_stmts(s) for e in stmt_exprs(s2) for x in walk_expr(e)):
                 pos = idx
+        if id(n) in read_at:
+            # the pivot value was read into a local: that declaration is where the division's operand is taken
+            for idx, s in enumerate(body):
+                if any(s2 is read_at[id(n)] for s2 in walk_stmts(s)):
+                    pos = idx if pos is None else min(pos, idx)
         before = body[:pos] if pos is not None else []
         # (1) scan selecting by magnitude
         sel_var = None
